@@ -1,5 +1,6 @@
 from __future__ import annotations
 
+import io
 import pprint
 import string
 import sys
@@ -160,7 +161,8 @@ def _dumpstruct(
         if color:
             foreground, background = colors[ci % len(colors)]
             # Bit fields share a storage unit and have no recorded size of their own
-            palette.append((structure._sizes.get(field._name, 0), background))
+            # (an instance that was built from values instead of parsed has no recorded sizes at all)
+            palette.append((getattr(structure, "_sizes", {}).get(field._name, 0), background))
         ci += 1
 
         value = getattr(structure, field._name)
@@ -213,7 +215,10 @@ def dumpstruct(
     if isinstance(obj, Structure):
         return _dumpstruct(obj, obj.dumps(), offset, color, output)
     if issubclass(obj, Structure) and data is not None:
-        return _dumpstruct(obj(data), data, offset, color, output)
+        # Show the bytes of the structure, not whatever follows it in the buffer
+        fh = io.BytesIO(data)
+        instance = obj(fh)
+        return _dumpstruct(instance, data[: fh.tell()], offset, color, output)
     raise ValueError("Invalid arguments")
 
 
